@@ -8,6 +8,13 @@ mapping, the exact number of bytes the real code needs, then repeats the call on
 buffers under ASan).  The generator runs the harness itself once (`?` claims) to learn the search
 outcome of every synthesised line; the final op lines carry that outcome, the model predicts the
 bytes needed / written from it, the harness measures them again.
+
+Second part (lean/ZvbiModel/Slicer/Buf*.lean, Props/C05Buf.lean): the public entry points
+vbi3_bit_slicer_slice / vbi3_bit_slicer_slice_with_points with caller-sized arrays (op `bslice`): every pixel
+format x both functions x buffer sizes 0..payload+1, exact-size heap output buffer and points array.  Which
+`buffer_size` test and which points limit /repo has is measured by translate/gen_slicerguard.py
+(Generated/SlicerGuard.lean); the model follows it, so the check passes before and after
+fixes/C05-slice-buffer-size.diff and fixes/C05-points-bound.diff.
 """
 import json, os, subprocess, sys
 sys.path.insert(0, os.path.join(os.path.dirname(os.path.abspath(__file__)), "..", "lib"))
@@ -26,6 +33,16 @@ GOOD_FMTS = [v for k, v in FMT.items() if k != "PAL8"]
 
 def bpp_of(f):
     return BPP.get(f, 2)
+
+
+def guard_facts():
+    """Generated/SlicerGuard.lean (written by translate/gen_slicerguard.py in this run) -> {name: bool}"""
+    import re
+    try:
+        t = open(os.path.join(verif.LEAN, "ZvbiModel", "Generated", "SlicerGuard.lean")).read()
+    except OSError:
+        return {}
+    return {m.group(1): m.group(2) == "true" for m in re.finditer(r"def (\w+) : Bool := (true|false)", t)}
 
 
 def load_known_merged():
@@ -47,6 +64,8 @@ def load_known_merged():
                 return False
         fixed3, fixedL = has_fix("bit_slicer.c"), has_fix("decoder.c")
         for k in json.load(open(q)).get("findings", []):
+            # (the entries for the buffer_size test and the points limit are retired in `signature`: the facts about the
+            # tree are only regenerated after the known findings are loaded)
             if k.get("id") == "F7-legacy":
                 if fixedL:
                     continue
@@ -96,7 +115,7 @@ def table_rows():
 class C05(verif.Spec):
     prop = "C05"
     comp = "slicer"
-    lean_modules = ["ZvbiModel.Props.C05"]
+    lean_modules = ["ZvbiModel.Props.C05", "ZvbiModel.Props.C05Buf"]
     harness = "slicer_harness"
     harness_link_lib = True
     timeout_per_case = 10.0
@@ -104,24 +123,40 @@ class C05(verif.Spec):
                     "CRI/FRC search (never found / found in iteration k and FRC mismatch / found in iteration k); "
                     "phase_shift is the floor of the exact rational value, its equality with the C double computation is "
                     "validated by the params ops, not proved; the pattern/job bookkeeping of the raw decoder "
-                    "(which services are tried on which row) is abstracted to `hit : row -> Bool`")
+                    "(which services are tried on which row) is abstracted to `hit : row -> Bool`; for the points array the clock "
+                    "recovery of the CRI search is abstracted to the list of tick events of the CRI() invocations executed "
+                    "(the driver is told how many points the real code stored and checks it against the invocation count)")
     assumptions = ["callers of vbi3_bit_slicer_set_params pass cri_end >= sample_offset, cri_bits >= 1, payload_bits >= 1 and rates "
                    "for which rate*bits/bit_rate fits 32 bits (true for every service table row at any 32 bit sampling rate: theorem rows_noWrap)",
                    "callers of the legacy vbi_bit_slicer_init pass raw_samples >= rate*(payload+frc_bits)/bit_rate (it has no failure path)",
-                   "IEEE double phase_shift = floor of the exact rational value (validated on every params/lparams op)"]
+                   "IEEE double phase_shift = floor of the exact rational value (validated on every params/lparams op)",
+                   "direct users of vbi3_bit_slicer_set_params with the low-pass slicer pass payload_bits >= 1 and cri_end != sample_offset "
+                   "(set_params accepts both - acceptance_does_not_imply_sane - and the do..while / 0 == --i loops then run 2^32 times: "
+                   "lowpass_zero_payload_counterexample); the raw decoder never does (rows_sane_params)"]
     open_statements = ["payload_reads_in_line_released_full (the full-strength read bound for the search limit of zvbi 0.2.x as released): "
                        "not open but REFUTED - payload_reads_in_line_counterexample / lowpass_reads_in_line_counterexample / "
                        "legacy_reads_in_line_counterexample (F7); proved at full strength for the repaired limit "
-                       "(payload_reads_in_line, legacy_reads_in_line), and for the released limit only as *_partial with the slack hypothesis"]
+                       "(payload_reads_in_line, legacy_reads_in_line), and for the released limit only as *_partial with the slack hypothesis",
+                       "slice_writes_within_buffer_released_full (released buffer_size test): REFUTED - slice_buffer_guard_counterexample; proved for the "
+                       "repaired test (slice_writes_within_buffer), released test only *_partial (bit modes)",
+                       "points_within_max_released_full (released points storage, F17): REFUTED - points_within_max_counterexample; proved for the "
+                       "repaired storage (points_within_max); for the released code the bound points_bound_released holds"]
     trusted_base = ["translate/gen_slicer.py (service table, pixel format enum, sizeof vbi_sliced.data; cross-checked by ops layout/table against the compiled code)",
                     "harness/slicer_harness.c guard-mapping measurement of the bytes needed + exact-size heap runs under ASan",
-                    "lean/Driver/Slicer.lean (prints the model's prediction for the same op lines)"]
+                    "lean/Driver/Slicer.lean (prints the model's prediction for the same op lines)",
+                    "translate/gen_slicerguard.py (which buffer_size test / points limit /repo has: evaluated on the compiled bit_slicer.c, "
+                    "validated by every bslice op)"]
 
     def variant(self):
         try:
             t = open(os.path.join(verif.LEAN, "ZvbiModel", "Generated", "ServiceTable.lean")).read()
+            g = guard_facts()
             return {"bit_slicer.c": "tight (fix applied)" if "def slicerTight : Bool := true" in t else "released (F7 present)",
-                    "decoder.c": "tight (fix applied)" if "def legacyTight : Bool := true" in t else "released (F7 present)"}
+                    "decoder.c": "tight (fix applied)" if "def legacyTight : Bool := true" in t else "released (F7 present)",
+                    "buffer_size test": "bytes (fix applied)" if g.get("sliceGuardInBytes") and g.get("withPointsGuardInBytes")
+                                        else "bits as released (payload bytes compared with buffer_size * 8)",
+                    "cri points": "bounded (fix applied)" if g.get("criPointsBoundedCore") and g.get("criPointsBoundedLowpass")
+                                  else "unbounded as released (F17)"}
         except OSError:
             return {}
 
@@ -183,7 +218,15 @@ class C05(verif.Spec):
         """replace the `?` claim of a slice/lslice/decode op by what the harness observed"""
         f = line.split()
         o = out.split()
-        if f[0] in ("slice", "lslice"):
+        if f[0] == "bslice":
+            if len(f) <= 23:
+                return line
+            kv = dict(t.split("=", 1) for t in o[2:] if "=" in t)
+            if o[0] == "ok" and len(o) > 2 and "ticks" in kv:
+                f[22], f[23] = o[1], kv["ticks"]
+            else:
+                f[22], f[23] = "n", "0"
+        elif f[0] in ("slice", "lslice"):
             idx = 19 if f[0] == "slice" else 16
             if len(f) <= idx:
                 return line
@@ -276,7 +319,7 @@ class C05(verif.Spec):
         return ops
 
     def gen_lparams(self, rng, n):
-        rows = [r for r in self.rows() if r["cri_bits"] and r["frc_bits"]]
+        rows = [r for r in self.rows() if r["cri_bits"]]
         ops = []
         for _ in range(n):
             r = rng.choice(rows)
@@ -318,8 +361,6 @@ class C05(verif.Spec):
         for _ in range(n_cfg):
             ri = rng.choice(sim)
             r = rows[ri]
-            if legacy and r["frc_bits"] == 0:
-                ri = rng.choice([i for i in sim if rows[i]["frc_bits"] > 0]); r = rows[ri]
             fmt = rng.choice([1, 1, 1] + GOOD_FMTS)
             want_lp = (not legacy) and rng.random() < 0.35 and fmt in LP_CAPABLE
             rate, spl = self.nominal_rate_spl(rng, r, want_lp)
@@ -493,6 +534,64 @@ class C05(verif.Spec):
                 rng.randrange(0, 8), rng.randrange(0, 16), rng.choice(["r2", "noise", "bar", "r77"]), rng.randrange(0, 200), rng.randrange(0, 1000)))
         return self.claim_pass(plan)
 
+    def bslice_line(self, fmt, rate, offset, spl, ri, sig, shift, seed, which, buf, mp, asan=False, claim="?", ticks="?"):
+        a = self.row_args(self.rows()[ri])
+        return "bslice %d %d %d %d 0x%x 0x%x %d %d %d 0x%x %d %d %d %d %s %d 0 %d %s %d %d %s %s%s" % (
+            fmt, rate, offset, spl, a[0], a[1], a[2], a[3], U32 - 1, a[4], a[5], a[6], a[7], a[8], sig, shift, seed,
+            which, buf, mp, claim, ticks, " asan" if asan else "")
+
+    def gen_bslice(self, rng, tier):
+        """direct API: every pixel format x both public functions x buffer sizes 0 .. payload bytes + 1 on a line that
+        carries the service (so the call stores the payload whenever the size test lets it), the points array sized
+        around total_bits; plus lines that make the CRI search recover many clock ticks (points array), plus malformed ops"""
+        rows = self.rows()
+        q = tier == "quick"
+        plan = []
+        want = [(0x3, False), (0x4, False), (0x400, False), (0x8, False), (0x20, True)]     # Teletext B, VPS, WSS 625, Caption 625, Caption 525 low-pass
+        for sid, lp in want:
+            ri = [i for i, r in enumerate(rows) if r["id"] == sid][0]
+            r = rows[ri]
+            nbytes = (r["payload"] + 7) // 8
+            total = r["cri_bits"] + r["frc_bits"] + r["payload"]
+            for fmt in GOOD_FMTS:
+                if lp and fmt not in LP_CAPABLE:
+                    continue
+                rate, spl = self.nominal_rate_spl(rng, r, lp)
+                if spl >= 16000:
+                    rate, spl = self.nominal_rate_spl(rng, r, lp)
+                seed = rng.randrange(1, 1 << 30)
+                for which in "sp":
+                    for buf in range(0, nbytes + 2):
+                        mp = 0 if which == "s" else rng.choice([total, total, total, 512, total + rng.randrange(1, 40), 4 * spl + total])
+                        plan.append(self.bslice_line(fmt, rate, 0, spl, ri, "r%d" % ri, 0, seed, which, buf, mp))
+                # the max_points test and arrays just big enough
+                for mp in (0, total - 1, total, total + 1):
+                    plan.append(self.bslice_line(fmt, rate, 0, spl, ri, "r%d" % ri, 0, seed, "p", nbytes, max(0, mp)))
+        # many clock ticks: long lines, square waves / noise around the CRI frequency (Y8 template and low-pass slicer)
+        ttx = [i for i, r in enumerate(rows) if r["id"] == 0x3][0]
+        cc = [i for i, r in enumerate(rows) if r["id"] == 0x20][0]
+        for _ in range(60 if q else 600):
+            if rng.random() < 0.6:
+                ri, fmt, rate = ttx, rng.choice([1, 1, 1, 2, 38]), rng.choice([13500000, 14750000, 17734475])
+                spl = rng.choice([720, 1024, 1440, 2048, 2048, 4096])
+                sig = rng.choice(["sq1", "sq2", "sq2", "sq3", "noise", "r%d" % ttx])
+            else:
+                ri, fmt, rate = cc, rng.choice([1, 2, 4, 32, 36]), rng.choice([27000000, 28636363, 35468950])
+                spl = rng.choice([1440, 2048, 4096, 8000])
+                sig = rng.choice(["sq13", "sq20", "sq27", "noise", "r%d" % cc])
+            r = rows[ri]
+            total = r["cri_bits"] + r["frc_bits"] + r["payload"]
+            mp = rng.choice([total, total, 512, 512, total + rng.randrange(0, 100), 8 * spl])
+            plan.append(self.bslice_line(fmt, rate, rng.choice([0, 0, 3]), spl, ri, sig, rng.randrange(0, 40), rng.randrange(1, 1 << 30),
+                                         "p", (r["payload"] + 7) // 8, mp))
+        # malformed
+        base = self.bslice_line(1, 13500000, 0, 720, ttx, "r%d" % ttx, 0, 5, "s", 42, 0)
+        f = base.split()
+        for k, v in ((19, "x"), (19, "sp"), (20, "-1"), (20, "100001"), (21, "1000001"), (21, "-0"), (20, "4x"), (15, "foo"), (15, "r99")):
+            g = list(f); g[k] = v; plan.append(" ".join(g))
+        plan += [base + " asan extra", base + " nosan", " ".join(f[:-1]), " ".join(f[:-3]), base.replace("bslice", "bslic")]
+        return self.claim_pass(plan)
+
     def gen_cases(self, rng, tier):
         q = tier == "quick"
         cases = []
@@ -508,6 +607,9 @@ class C05(verif.Spec):
         ops += self.gen_slice_malformed(rng, 500 if q else 4000)
         for i in range(0, len(ops), 12):
             cases.append(ops[i:i + 12])
+        ops = self.gen_bslice(rng, tier)
+        for i in range(0, len(ops), 25):
+            cases.append(ops[i:i + 25])
         ops = self.gen_decode(rng, 400 if q else 4000)
         for i in range(0, len(ops), 6):
             cases.append(ops[i:i + 6])
@@ -582,13 +684,52 @@ class C05(verif.Spec):
         except (ValueError, IndexError, ZeroDivisionError):
             return None
 
+    @staticmethod
+    def oracle_bslice(f, g, kv):
+        """the public entry points, judged from the op's parameters alone: nothing is stored beyond buffer_size bytes /
+        max_points points, a too small buffer or points array is refused (and only then), a successful call stores
+        exactly the payload bytes, a failing call leaves the buffer alone"""
+        if len(g) > 1 and g[1] == "nondeterministic":
+            return "bslice nondeterministic result"
+        if "wr" not in kv:
+            return None
+        try:
+            cb, fb, pl = int(f[7], 0), int(f[11], 0), int(f[12], 0)
+            wr, buf, np_, pw, mp, ticks = (int(kv[k]) for k in ("wr", "buf", "np", "pw", "mp", "ticks"))
+        except (ValueError, KeyError):
+            return "bslice unparsable output"
+        nbytes, total = (pl + 7) // 8, cb + fb + pl
+        octet = "octet-mode" if (pl % 8 == 0 and buf < nbytes <= buf * 8) else "unexplained"
+        if wr > buf:
+            return "bslice buffer overwrite %s: %d bytes stored into a buffer of %d" % (octet, wr, buf)
+        if kv["ref"] != "b" and buf < nbytes:
+            return "bslice buffer guard %s: buffer_size %d < %d payload bytes not refused" % (octet, buf, nbytes)
+        if kv["ref"] == "b" and buf >= nbytes:
+            return "bslice buffer refused: buffer_size %d >= %d payload bytes" % (buf, nbytes)
+        if f[19] == "p" and kv["ref"] != "b":
+            if (kv["ref"] == "p") != (mp < total):
+                return "bslice max_points test: ref=%s max_points %d total_bits %d" % (kv["ref"], mp, total)
+            if pw > mp or np_ > mp:
+                # explained by the CRI search (F17): the FRC / payload points alone would have fitted
+                cri = "cri-search" if (ticks > 0 and pw - ticks <= fb + pl and np_ <= pw) else "unexplained"
+                return "bslice points overwrite %s: %d points stored (%d clock ticks), n_points %d, max_points %d" % (cri, pw, ticks, np_, mp)
+        if kv["ret"] == "1" and wr != nbytes:
+            return "bslice stored %d bytes for %d payload bits" % (wr, pl)
+        if kv["ret"] == "0" and wr != 0:
+            return "bslice modified the buffer (%d bytes) although it failed" % wr
+        if (kv["ret"] == "1") != (g[1][0] == "o" and kv["ref"] == "0"):
+            return "bslice inconsistent result %s" % " ".join(g)
+        return None
+
     def oracle(self, case, out):
         st = self.__dict__.setdefault("_ostats", {})
         for op, o in zip(case, out):
             f, g = op.split(), o.split()
             if not f:
                 continue
-            key = f[0] + ":" + (g[0] + " " + (g[1] if g[0] == "rej" and len(g) > 1 else (g[1][0] if f[0] in ("slice", "lslice") and len(g) > 1 and g[1][0] in "nofwb" else "")) if g else "none").strip()
+            key = f[0] + ":" + (g[0] + " " + (g[1] if g[0] == "rej" and len(g) > 1 else (g[1][0] if f[0] in ("slice", "lslice", "bslice") and len(g) > 1 and g[1][0] in "nofwb" else "")) if g else "none").strip()
+            if f[0] == "bslice" and len(g) > 3 and g[0] == "ok" and len(f) > 19:
+                key += " %s %s %s" % (f[19], g[2], g[3])
             st[key] = st.get(key, 0) + 1
         self.extra_coverage = {"ops_by_kind_and_result": dict(sorted(st.items())),
                                "slicer_variant_in_repo": self.variant()}
@@ -599,7 +740,11 @@ class C05(verif.Spec):
             if not f or g[0] != "ok":
                 continue
             kv = dict(t.split("=", 1) for t in g[1:] if "=" in t)
-            if f[0] in ("slice", "lslice"):
+            if f[0] == "bslice":
+                w = self.oracle_bslice(f, g, kv)
+                if w:
+                    return w
+            elif f[0] in ("slice", "lslice"):
                 if "need" not in kv:
                     continue
                 line = int(kv["line"])
@@ -640,8 +785,38 @@ class C05(verif.Spec):
         return None
 
     def signature(self, case, what):
+        sig = self.signature0(case, what)
+        # a known finding whose repair is in the tree (facts measured by translate/gen_slicerguard.py in this run) is a
+        # regression, not a known finding: make the signature miss the entry
+        g = guard_facts()
+        if sig == "bslice buffer guard octet-mode" and g.get("sliceGuardInBytes") and g.get("withPointsGuardInBytes"):
+            sig += " (although the byte test is in the tree)"
+        if sig == "bslice points overwrite cri-search" and g.get("criPointsBoundedCore") and g.get("criPointsBoundedLowpass"):
+            sig += " (although the points limit is in the tree)"
+        return sig
+
+    def signature0(self, case, what):
         if what.startswith("overread") or what.startswith("overwrite"):
             return what.split(":")[0]
+        if what.startswith("bslice buffer overwrite octet-mode") or what.startswith("bslice buffer guard octet-mode"):
+            return "bslice buffer guard octet-mode"       # one defect: payload BYTES compared with buffer_size * 8
+        if what.startswith("bslice"):
+            return what.split(":")[0]
+        if what.startswith("crash") and "heap-buffer-overflow" in what and any(l.startswith("bslice") and l.endswith(" asan") for l in case):
+            # replay form of an overflow of the caller's arrays: classify by the op
+            for l in case:
+                f = l.split()
+                if f[0] == "bslice" and f[-1] == "asan":
+                    try:
+                        pl, buf = int(f[12], 0), int(f[20], 0)
+                    except (ValueError, IndexError):
+                        break
+                    nbytes = (pl + 7) // 8
+                    if pl % 8 == 0 and buf < nbytes <= buf * 8:
+                        return "bslice buffer guard octet-mode"
+                    if f[19] == "p" and buf >= nbytes:
+                        return "bslice points overwrite cri-search"
+            return "bslice asan unexplained"
         if what.startswith("crash") and "heap-buffer-overflow" in what and any(l.endswith(" asan") for l in case):
             return "overread asan"
         import re
